@@ -310,6 +310,8 @@ theorem C15_body_CorDef_Start : Gen.c15BodyOf "CorDef.Start" = some "{ if self.I
 theorem C15_body_DefaultWorkerPool_Close : Gen.c15BodyOf "worker.DefaultWorkerPool.Close" = some "{ if self.IsClosed() { return } self.isClosed.Set(true) if self.isJobQueueClosedWhenClose { self.jobQueue.Close() } }" := by decide +kernel
 theorem C15_body_DefaultWorkerPool_Schedule : Gen.c15BodyOf "worker.DefaultWorkerPool.Schedule" = some "{ if self.IsClosed() { return ErrWorkerPoolIsClosed } defer self.spawnWorkerCh.Offer(1) err := self.jobQueue.Offer(fn) if err == fpgo.ErrQueueIsFull { return ErrWorkerPoolJobQueueIsFull } return err }" := by decide +kernel
 theorem C15_body_DefaultWorkerPool_IsClosed : Gen.c15BodyOf "worker.DefaultWorkerPool.IsClosed" = some "{ return self.isClosed.Get() }" := by decide +kernel
+theorem C15_body_AtomBool_Set : Gen.c15BodyOf "AtomBool.Set" = some "{ var i int32 i = 0 if value { i = 1 } atomic.StoreInt32(&(self.flag), int32(i)) }" := by decide +kernel
+theorem C15_body_AtomBool_Get : Gen.c15BodyOf "AtomBool.Get" = some "{ if atomic.LoadInt32(&(self.flag)) != 0 { return true } return false }" := by decide +kernel
 theorem C15_skel_BufferedChannelQueue_Offer : Gen.skeletonOf "BufferedChannelQueue.Offer" = some "call(lock.Lock) defer{call(lock.Unlock)} if[get(isClosed) call(isClosed.Get)]{return} get(pool) call(pool.Count) if[]{call(blockingQueue.Offer) if[]{return}else{if[]{}else{return}}} if[]{return} get(pool) call(pool.Offer) call(loadWorkerCh.Offer) return" := by decide +kernel
 theorem C15_skel_BufferedChannelQueue_loadFromPool : Gen.skeletonOf "BufferedChannelQueue.loadFromPool" = some "rangech(loadWorkerCh){if[get(isClosed) call(isClosed.Get)]{break} call(lock.Lock) if[get(isClosed) call(isClosed.Get)]{call(lock.Unlock) break} for[get(pool) call(pool.Count)]{get(pool) call(pool.Poll) if[]{break} call(blockingQueue.Offer) if[]{get(pool) call(pool.Unshift) break}} call(lock.Unlock) call(Sleep)}" := by decide +kernel
 theorem C15_skel_BufferedChannelQueue_freeNodePool : Gen.skeletonOf "BufferedChannelQueue.freeNodePool" = some "rangech(freeNodeWorkerCh){call(Sleep) if[get(isClosed) call(isClosed.Get)]{break} call(lock.Lock) if[get(pool)]{get(pool) call(pool.KeepNodePoolCount)} call(lock.Unlock)}" := by decide +kernel
